@@ -1502,8 +1502,12 @@ def rule_collect(repo):
 
     def accepts(filt, var, s):
         return all(bool(Evaluator({var: s}, arith=True, leaf=_str_leaf({var: s})).ev(t)) == pol for t, pol in filt)
-    for qual in ('NamedObject._collect_all_single', 'NamedObject._collect_all'):
-        fa = analyse(repo, NAMED, qual)
+    # the local collector (get_child_components / get_*_ports / get_wires / get_local_object_filter) lists the objects a
+    # component hosts directly: public str keys and lists to any depth (slices are not local objects)
+    for rel_, qual, kinds_ in ((NAMED, 'NamedObject._collect_all_single', ('str', 'tuple', 'list')),
+                               (NAMED, 'NamedObject._collect_all', ('str', 'tuple', 'list')),
+                               (COMP, 'Component._collect_objects_local', ('str', 'list'))):
+        fa = analyse(repo, rel_, qual)
         seen = {'str': None, 'tuple': None, 'list': None}
         for p in fa.paths:
             for e in p.events:
@@ -1513,7 +1517,11 @@ def rule_collect(repo):
                 arg = e.call.args[0]
                 d = fa.d(arg)
                 if e.call.func.attr == 'extend':
-                    if any(norm(t) == f"isinstance({norm(arg)}, list)" and pol for t, pol in p.atoms()):
+                    # recursion to any depth: the list popped from the worklist is pushed back onto that same worklist
+                    popped = d is not None and d.kind == 'call' and isinstance(d.expr, ast.Call) \
+                        and isinstance(d.expr.func, ast.Attribute) and d.expr.func.attr in POPS \
+                        and same(d.expr.func.value, e.call.func.value)
+                    if popped and any(norm(t) == f"isinstance({norm(arg)}, list)" and pol for t, pol in p.atoms()):
                         seen['list'] = seen['list'] or []
                     continue
                 if d is None or d.kind != 'iter' or d.index != (1,):
@@ -1536,12 +1544,18 @@ def rule_collect(repo):
                     if any(norm(t) == f"isinstance({k}, {kind})" and pol for t, pol in filt):
                         rest = [(t, pol) for t, pol in filt if not norm(t).startswith('isinstance(')]
                         seen[kind] = (seen[kind] or []) + [(k, rest)]
-        for kind in ('str', 'tuple', 'list'):
+        for kind in kinds_:
             r.evaluations += 1
             cons = f"traversal of {kind} storage"
             if seen[kind] is None:
-                r.bad(fa.mod, fa.qual, cons, f"objects stored under {kind} keys / in lists are named but never collected "
-                      f"(or collected unconditionally without the kind test): get_all_object_filter misses them", fa.func.lineno)
+                if kind == 'list':
+                    r.bad(fa.mod, fa.qual, cons, "lists are not traversed through a worklist that receives every popped list "
+                          "again (recursion to any depth, like the naming BFS): objects in 2-D or deeper lists keep their "
+                          "names and parent pointers but are not listed by this collector (sub-tree unreachable top-down)",
+                          fa.func.lineno)
+                else:
+                    r.bad(fa.mod, fa.qual, cons, f"objects stored under {kind} keys are named but never collected "
+                          f"(or collected unconditionally without the kind test): the collector misses them", fa.func.lineno)
                 continue
             if kind == 'str':
                 bad = None
@@ -1572,7 +1586,7 @@ def rule_collect(repo):
                     r.ok(fa.mod, fa.qual, cons)
             else:
                 r.ok(fa.mod, fa.qual, cons)
-    r.require_floor(6)
+    r.require_floor(8)
     return r
 
 
@@ -1623,7 +1637,11 @@ def _str_leaf(env):
     return leaf
 
 
-RULES = [rule_name_storage, rule_cache, rule_meta, rule_reassign, rule_siblings, rule_api, rule_collect]
+# dependency: re-elaborating the same construction code must yield the same names -- lambda / update blocks are re-parsed
+# per elaboration and cached per defining class (decided by C02's cache-scope rule)
+from rules.c02 import rule_cache_scope      # noqa: E402
+
+RULES = [rule_name_storage, rule_cache, rule_meta, rule_reassign, rule_siblings, rule_api, rule_collect, rule_cache_scope]
 
 # ---------------------------------------------------------------------------
 # self-test of the checker (thorough tier)
@@ -1766,6 +1784,10 @@ MUTANTS = [
     _m('add-stored-at-first-index', COMP, "      list_parent[ indices[i] ] = obj", "      list_parent[ indices[0] ] = obj", 'R-C14'),
     _m('add-root-list-taken-from-top', COMP, "      list_parent = getattr( parent, name )\n      i = 0\n      while i < len(indices) - 1:",
        "      list_parent = getattr( s, name )\n      i = 0\n      while i < len(indices) - 1:", 'R-C14-name-storage'),
+    _m('local-collector-one-list-level', COMP, "      elif isinstance( u, list ):\n        stack.extend( u )\n    if sort_key:",
+       "      elif isinstance( u, list ):\n        ret.update( v for v in u if filt( v ) )\n    if sort_key:", 'R-C14-collect'),
+    _m('local-collector-takes-private-fields', COMP, "        if name[0] != '_': # filter private variables\n          stack.append( obj )\n    while stack:",
+       "        if True:\n          stack.append( obj )\n    while stack:", 'R-C14-collect'),
     _m('level-getter-off-by-one', COMP, "      return s._dsl.level\n", "      return s._dsl.level + 1\n", 'R-C14-api'),
 ]
 
